@@ -3,6 +3,10 @@ import json, os
 VERIF = os.path.dirname(os.path.dirname(os.path.abspath(__file__)))
 
 CLAIMED = {
+    "C19": ("Lean 4 theorems (generic round trip save->load->save for every well-formed class descriptor; panoptica's descriptors well formed, every constructor parameter represented, enum names distinct) + extraction (descriptors regenerated from the source by a Python-ast extractor on every run; Generated = expected proved by decide) + correspondence (real save/load/save, attribute trees, probe evaluations, shipped configurations)",
+            "For every class descriptor satisfying the decidable well-formedness check, saving the reloaded object reproduces the saved mapping and the represented settings are identical; the descriptors of panoptica's configurable classes are re-extracted from /repo's working tree on every run and must equal the ones the theorems are about (a dropped or transformed YAML key breaks this obligation before any input is run); real configurations with every field away from its default are round-tripped and compared byte-for-byte, attribute-for-attribute and on probe inputs.",
+            "Trusted: Lean kernel + 3 standard axioms; the extractor (Python ast) and harness; ruamel.yaml text emission/parsing; idempotence of the constructors' normalisations (list(set(.)), lower-casing) is a hypothesis of the generic theorem checked by correspondence; SegmentationClassGroups' constructor is outside the extractor's subset (covered by correspondence only).",
+            "DESIGN.md §7 C19"),
     "C01": ("Lean 4 theorems (the pipeline model is exactly the documented composition: matched/unmatched/semantic wiring, candidates = overlapping pairs scored on the voxel sets, greedy best-first assignment, tp = passing matched labels, one list entry per TP; stage theorems C02-C09 apply to its output) + correspondence + independent implementation of the published definitions",
             "The end-to-end model is proved to be the composition of the verified stages; the real evaluator is compared on generated and exhaustively enumerated inputs, for the three input types, IoU/Dice/ASSD matching, decision metrics and both backends, with the model and with an independent implementation of the definitions whenever they determine the answer uniquely.",
             "Trusted: Lean kernel + 3 standard axioms; harness; ASSD order in float64 (near-ties skipped and counted); cc3d/scipy/EDT compared against proved definitions; crops are not part of the model (C10 crop lemma + correspondence).",
